@@ -97,6 +97,24 @@ CmpOld(x, y) ==
 LessOld(x, y) == CmpOld(x, y) < 0
 
 (***************************************************************************)
+(* The order both builders use since the repair of D6: a sort KEY instead  *)
+(* of a pairwise comparator.  At one instant: zero-duration events first   *)
+(* when some positive span closes there (they lie inside it), then the     *)
+(* closes (inner first), then the opens (outer first), then zero-duration  *)
+(* events when nothing closes there (they lie inside what just opened).    *)
+(***************************************************************************)
+CloseTimes(S) == { End(e) : e \in { x \in S : x.dur > 0 } }
+Group(S, x) == IF x.dur = 0 THEN (IF x.time \in CloseTimes(S) THEN 0 ELSE 3)
+               ELSE IF x.kind = "close" THEN 1 ELSE 2
+LessKey(S, x, y) ==
+    IF x.time # y.time THEN x.time < y.time
+    ELSE IF Group(S, x) # Group(S, y) THEN Group(S, x) < Group(S, y)
+    ELSE IF x.dur = 0 THEN (IF x.kind # y.kind THEN x.kind = "open"
+                            ELSE IF x.kind = "open" THEN x.id < y.id ELSE x.id > y.id)
+    ELSE IF x.kind = "close" THEN (IF x.dur # y.dur THEN x.dur < y.dur ELSE x.id > y.id)
+    ELSE (IF x.dur # y.dur THEN x.dur > y.dur ELSE x.id < y.id)
+
+(***************************************************************************)
 (* What a comparison sort may return: any arrangement without inversion    *)
 (* (no later element strictly smaller than an earlier one).  For a strict  *)
 (* total order that is the unique sorted sequence.                         *)
